@@ -24,6 +24,8 @@ type msWallet struct {
 	ThreshIDs  []string
 	Registered bool
 	Proposals  []*msProposal
+	// the last signature of signer i the contract accepted in a vote (on whatever transfer that vote was about)
+	AcceptedSig map[int]string
 }
 
 type msProposal struct {
@@ -165,7 +167,12 @@ func multisigOps() []OpDef {
 			mut := ""
 			hostile := h.Vars["hostile"].(float64)
 			if r.Chance(hostile) {
-				switch r.Intn(6) {
+				switch r.Intn(7) {
+				case 6: // the signer's own signature, but the one it gave (and the contract accepted) for ANOTHER transfer
+					if old, ok := w.AcceptedSig[i]; ok && old != sig {
+						sig = old
+						mut = "signature-of-another-transfer"
+					}
 				case 0: // stranger votes with own signature
 					from = h.anyClient(r)
 					sig = from.Sign(transferHash(w.Group.ID, to, amt))
@@ -196,7 +203,19 @@ func multisigOps() []OpDef {
 				}
 			}
 			in := map[string]interface{}{"proposal_id": p.ID, "transfer": map[string]interface{}{"from": w.Group.ID, "to": to, "amount": amt}, "signature": sig}
-			return &Call{Name: "multisig.vote", Mut: mut, Meta: map[string]interface{}{"ms": w, "prop": p, "signer": i}, Spec: world.TxnSpec{From: from, To: sc, Fee: 0, Type: T, Func: "vote", Input: in}}
+			c := &Call{Name: "multisig.vote", Mut: mut, Meta: map[string]interface{}{"ms": w, "prop": p, "signer": i}, Spec: world.TxnSpec{From: from, To: sc, Fee: 0, Type: T, Func: "vote", Input: in}}
+			if mut == "" {
+				usedSig := sig
+				c.After = func(h *Hist, o *TxnObs) {
+					if o.Outcome == "success" {
+						if w.AcceptedSig == nil {
+							w.AcceptedSig = map[int]string{}
+						}
+						w.AcceptedSig[i] = usedSig
+					}
+				}
+			}
+			return c
 		}},
 	}
 }
